@@ -5,6 +5,7 @@ import (
 	"errors"
 	"fmt"
 	"io"
+	"strings"
 	"testing"
 
 	"github.com/parquet-go/parquet-go"
@@ -38,6 +39,7 @@ type Case struct {
 	Ops    []Op           `json:"ops"`
 	Async  bool           `json:"async,omitempty"`
 	Clone  bool           `json:"clone,omitempty"`  // row reads: keep clones (valid forever) instead of raw rows
+	Reuse  bool           `json:"reuse,omitempty"`  // typed reads: one destination slice is passed to every Read and the rows are copied out shallowly
 	Source string         `json:"source,omitempty"` // typed reads: "" file | "GenericBuffer" | "RowBuffer" (in-memory row group, rewritten by "rewrite" ops)
 }
 
@@ -47,7 +49,7 @@ func genCase(t *rapid.T) Case {
 	var c Case
 	var root *ref.Node
 	if rapid.Bool().Draw(t, "typed") {
-		names := []string{"Scalars", "OptScalars", "OptPair", "Pointers", "Encoded", "Logical", "Lists", "Nested", "Maps", "DictLists", "Deep"}
+		names := []string{"Scalars", "OptScalars", "OptPair", "Pointers", "Encoded", "Logical", "Lists", "Nested", "Maps", "DictLists", "Deep", "NestedMaps", "OptGroup", "Embedded", "Maps", "Lists"}
 		c.Type = names[rapid.IntRange(0, len(names)-1).Draw(t, "type")]
 		root = &typed.ByName(c.Type).Node
 	} else {
@@ -78,6 +80,7 @@ func genCase(t *rapid.T) Case {
 	c.Ops = append(c.Ops, Op{K: "churn", N: 2}, Op{K: "close"}, Op{K: "churn", N: 2})
 	c.Async = rapid.IntRange(0, 3).Draw(t, "async") == 0
 	c.Clone = rapid.Bool().Draw(t, "clone")
+	c.Reuse = c.Type != "" && rapid.Bool().Draw(t, "reuse")
 	if c.Type != "" && rapid.IntRange(0, 2).Draw(t, "buffered") == 0 {
 		c.Source = []string{"GenericBuffer", "RowBuffer"}[rapid.IntRange(0, 1).Draw(t, "bufkind")]
 		// the memory of the buffer is reused when it is reset and written again
@@ -201,6 +204,10 @@ func runCase(c Case, o *kit.Obs) *kit.Failure {
 			return kit.Failf("c16/open-error", "%v", err)
 		}
 		rr = parquet.NewReader(f)
+	}
+	if tr != nil && c.Reuse {
+		tr.ReuseDst = true
+		feat = strings.Replace(feat, ".Read", ".Read[reused batch]", 1)
 	}
 	closed := false
 	pagesCrossed, churned := 0, false
